@@ -42,6 +42,16 @@ def run_case(ctx, i, rng):
     pa, la = gen.pose(rng, k, maxexp)
     pb, lb = gen.pose(rng, k, maxexp)
     pt, _ = gen.pose(rng, kp, maxexp)
+    if rng.random() < 0.2:
+        # operands that coincide in part (equal values in distinct objects): same orientation, same position, one shared coordinate, all equal
+        pb, how = gen.coincide(rng, k, pa, pb)
+        ctx.count("class:operands_coincide:" + how)
+        if rng.random() < 0.4:
+            nt = 2 if kp == "r2" else 3
+            j = int(rng.integers(nt))
+            pt = list(pt)
+            pt[j] = pa[j]
+            ctx.count("class:operands_coincide:point_shares_a_coordinate")
     labels |= la | lb
     if rng.random() < 0.15:
         # two poses far from the origin but close together: what depends on the difference only must stay accurate
